@@ -171,3 +171,99 @@ Proof.
   - cbn; auto.
 Qed.
 End Sim.
+
+(* a small Hoare logic over exec: postconditions indexed by the control outcome *)
+Section Hoare.
+Variable St : Type.
+Variable crashed : St -> bool.
+
+Definition triple (P : St -> Prop) (c : cmd St) (Qn Qb Qc : St -> Prop) : Prop :=
+  forall fuel s s' k, P s -> exec crashed fuel c s = Some (s', k) ->
+    match k with Next => Qn s' | Brk => Qb s' | Cont => Qc s' | Abort => True end.
+
+Lemma t_do (P : St -> Prop) f (Qn Qb Qc : St -> Prop) : (forall s, P s -> Qn (f s)) -> triple P (Do f) Qn Qb Qc.
+Proof. intros H fuel s s' k HP He. cbn in He. inversion He; subst. destruct (crashed (f s)); [exact I|apply H; exact HP]. Qed.
+Lemma t_skip (P Qb Qc : St -> Prop) : triple P Skip P Qb Qc.
+Proof. intros fuel s s' k HP He. cbn in He. inversion He; subst. exact HP. Qed.
+Lemma t_break (P Qn Qc : St -> Prop) : triple P Break Qn P Qc.
+Proof. intros fuel s s' k HP He. cbn in He. inversion He; subst. exact HP. Qed.
+Lemma t_continue (P Qn Qb : St -> Prop) : triple P Continue Qn Qb P.
+Proof. intros fuel s s' k HP He. cbn in He. inversion He; subst. exact HP. Qed.
+Lemma t_seq (P M : St -> Prop) a b (Qn Qb Qc : St -> Prop) : triple P a M Qb Qc -> triple M b Qn Qb Qc -> triple P (Seq a b) Qn Qb Qc.
+Proof.
+  intros Ha Hb fuel s s' k HP He. cbn in He.
+  destruct (exec crashed fuel a s) as [[s1 k1]|] eqn:E1; [|discriminate].
+  pose proof (Ha fuel s s1 k1 HP E1) as H1.
+  destruct k1; try (inversion He; subst; exact H1). exact (Hb fuel s1 s' k H1 He).
+Qed.
+Lemma t_ite (P : St -> Prop) g a b (Qn Qb Qc : St -> Prop) :
+  triple (fun s => P s /\ g s = true) a Qn Qb Qc -> triple (fun s => P s /\ g s = false) b Qn Qb Qc ->
+  triple P (Ite g a b) Qn Qb Qc.
+Proof.
+  intros Ha Hb fuel s s' k HP He. cbn in He. destruct (g s) eqn:G; [exact (Ha fuel s s' k (conj HP G) He)|exact (Hb fuel s s' k (conj HP G) He)].
+Qed.
+Lemma t_conseq (P P' : St -> Prop) c (Qn Qn' Qb Qb' Qc Qc' : St -> Prop) :
+  (forall s, P' s -> P s) -> (forall s, Qn s -> Qn' s) -> (forall s, Qb s -> Qb' s) -> (forall s, Qc s -> Qc' s) ->
+  triple P c Qn Qb Qc -> triple P' c Qn' Qb' Qc'.
+Proof. intros HP Hn Hb Hc H fuel s s' k HP' He. specialize (H fuel s s' k (HP _ HP') He). destruct k; auto. Qed.
+Lemma t_skip' (P Qn Qb Qc : St -> Prop) : (forall s, P s -> Qn s) -> triple P Skip Qn Qb Qc.
+Proof. intros H fuel s s' k HP He. cbn in He. inversion He; subst. apply H; exact HP. Qed.
+Lemma t_break' (P Qn Qb Qc : St -> Prop) : (forall s, P s -> Qb s) -> triple P Break Qn Qb Qc.
+Proof. intros H fuel s s' k HP He. cbn in He. inversion He; subst. apply H; exact HP. Qed.
+Lemma t_pre (P P' : St -> Prop) c (Qn Qb Qc : St -> Prop) : (forall s, P' s -> P s) -> triple P c Qn Qb Qc -> triple P' c Qn Qb Qc.
+Proof. intros HP H fuel s s' k HP' He. exact (H fuel s s' k (HP _ HP') He). Qed.
+Lemma t_post (P : St -> Prop) c (Qn Qn' Qb Qc : St -> Prop) : (forall s, Qn s -> Qn' s) -> triple P c Qn Qb Qc -> triple P c Qn' Qb Qc.
+Proof. intros Hn H fuel s s' k HP He. specialize (H fuel s s' k HP He). destruct k; auto. Qed.
+Lemma t_any (P : St -> Prop) c : triple P c (fun _ => True) (fun _ => True) (fun _ => True).
+Proof. intros fuel s s' k _ _. destruct k; exact I. Qed.
+
+(* while: I holds at every loop head; the loop ends when the guard fails (I /\ ~g) or the body breaks (X) *)
+Section While.
+Variables (I X : St -> Prop) (g : St -> bool) (body : cmd St) (fuel : positive).
+Hypothesis Hbody : triple (fun s => I s /\ g s = true) body I X I.
+
+Definition LP (r : St * bool * ctl) : Prop :=
+  match r with
+  | (s1, w, k1) => (k1 = Abort /\ w = false) \/
+                   (k1 = Next /\ if w then I s1 else (X s1 \/ (I s1 /\ g s1 = false)))
+  end.
+
+Lemma iter_LP s0 r : I s0 -> iter_once St (exec crashed fuel body) g s0 = Some r -> LP r.
+Proof.
+  intros HI0. unfold iter_once. destruct (g s0) eqn:G.
+  - destruct (exec crashed fuel body s0) as [[s1 k1]|] eqn:E; [|discriminate].
+    pose proof (Hbody fuel s0 s1 k1 (conj HI0 G) E) as H1.
+    destruct k1; intros H'; inversion H'; subst; cbn; auto.
+  - intros H'; inversion H'; subst. cbn. right. split; [reflexivity|]. right; auto.
+Qed.
+
+Lemma loop_LP p : forall s0 r, I s0 -> loopP St (exec crashed fuel body) g p s0 = Some r -> LP r.
+Proof.
+  induction p as [q IH|q IH|]; intros s0 r HI0 H; cbn [loopP] in H.
+  - destruct (iter_once St (exec crashed fuel body) g s0) as [[[s1 w1] k1]|] eqn:E1; [|discriminate].
+    pose proof (iter_LP _ _ HI0 E1) as H1.
+    destruct w1; [|inversion H; subst; exact H1].
+    destruct H1 as [[_ Hw]|[_ HI1]]; [discriminate|].
+    destruct (loopP St (exec crashed fuel body) g q s1) as [[[s2 w2] k2]|] eqn:E2; [|discriminate].
+    pose proof (IH _ _ HI1 E2) as H2.
+    destruct w2; [|inversion H; subst; exact H2].
+    destruct H2 as [[_ Hw]|[_ HI2]]; [discriminate|]. exact (IH _ _ HI2 H).
+  - destruct (loopP St (exec crashed fuel body) g q s0) as [[[s1 w1] k1]|] eqn:E1; [|discriminate].
+    pose proof (IH _ _ HI0 E1) as H1.
+    destruct w1; [|inversion H; subst; exact H1].
+    destruct H1 as [[_ Hw]|[_ HI1]]; [discriminate|]. exact (IH _ _ HI1 H).
+  - exact (iter_LP _ _ HI0 H).
+Qed.
+End While.
+
+Lemma t_while (I X : St -> Prop) g body (Qb Qc : St -> Prop) :
+  triple (fun s => I s /\ g s = true) body I X I ->
+  triple I (While g body) (fun s => X s \/ (I s /\ g s = false)) Qb Qc.
+Proof.
+  intros Hbody fuel s s' k HI He. cbn [exec] in He.
+  destruct (loopP St (exec crashed fuel body) g fuel s) as [[[s1 w1] k1]|] eqn:E1; [|discriminate].
+  pose proof (loop_LP I X g body fuel Hbody fuel s _ HI E1) as H1.
+  destruct w1; [discriminate|]. inversion He; subst.
+  destruct H1 as [[-> _]|[-> H1]]; [exact Logic.I|exact H1].
+Qed.
+End Hoare.
